@@ -565,3 +565,8 @@ MUTANTS += [
     size_t to_read = tgt_idx->comp_length;""", 'new': """    char buf[4096] = {0};
     size_t to_read = tgt_idx->comp_length;""", 'expect': 'R4.array-extent zero_chunk'},
 ]
+
+
+# SESSION7b additions to the claim (round 8, DESIGN 12.6)
+CLAIM['technique'] += '; realloc-keep typestate (a failed zrealloc through a temporary never leaves the field dangling)'
+CLAIM['text'] += ' C03-k: every exit behind the failure edge of zrealloc(field) has reassigned the field.'
